@@ -632,6 +632,16 @@ class MarkdownNormalizer(Renderer):
         return f"[{link_text}]({dest}{title})"
 
     def render_auto_link(self, element: inline.AutoLink) -> str:
+        # For an email autolink Marko puts the `mailto:` scheme into the destination; what was
+        # written is the bare address, which is the text of the link.
+        children = element.children
+        if (
+            element.dest.startswith("mailto:")
+            and len(children) == 1
+            and isinstance(children[0], inline.RawText)
+            and not children[0].children.lower().startswith("mailto:")
+        ):
+            return f"<{element.dest[len('mailto:') :]}>"
         return f"<{element.dest}>"
 
     def render_image(self, element: inline.Image) -> str:
